@@ -45,8 +45,8 @@ adversarial_random_source.bounded = "400 requests against a random source repeat
 
 @table("frozen-clock", prop="C16")
 def frozen_clock():
-    """300 Session-Ids generated for one identity with the clock frozen, and 50 more after the clock moved on by a
-    second: pairwise distinct, each `identity;<high>;<low>;bromelia` with decimal high/low (the identity switch within
+    """300 Session-Ids generated for one identity with the clock frozen, 50 more after the clock moved on by a
+    second, then 60 more mixing fresh ids with regenerations from OLDER ids: pairwise distinct, each `identity;<high>;<low>;bromelia` with decimal high/low (the identity switch within
     one clock second is the recorded finding KF-C16-reset and is not exercised here)"""
     import datetime
     import re
@@ -70,6 +70,12 @@ def frozen_clock():
         for i in range(50):
             prev = IU.SessionHandler.get_session_id("host.example", prev)
             ids.append(prev)
+        # fresh ids (no previous) interleaved with regenerations whose `previous` is an OLD id of the same
+        # identity (the bulk origin re-assignment of a message created earlier): still never a repeat
+        for i in range(20):
+            ids.append(IU.SessionHandler.get_session_id("host.example", None))
+            ids.append(IU.SessionHandler.get_session_id("host.example", ids[i * 3]))
+            ids.append(IU.SessionHandler.get_session_id("host.example", ids[-3]))
     finally:
         IU.datetime.datetime = real
         IU.SessionHandler.reset()
@@ -78,4 +84,4 @@ def frozen_clock():
             ("session-ids-well-formed", fmt, {"first": ids[0], "last": ids[-1]})]
 
 
-frozen_clock.bounded = "350 generations for one identity with a frozen / stepped clock; native"
+frozen_clock.bounded = "410 generations (60 of them fresh / regenerated from older ids) for one identity with a frozen / stepped clock; native"
